@@ -265,3 +265,45 @@ func configSlicesNotAppendedRule(r *Run, pkg, owner string) {
 		r.ok("handler:no-append-into-config", r.fpos(hs[0]), fmt.Sprintf("%d append calls in per-request code, none on a slice that can alias a Config field", n))
 	}
 }
+
+// storageSetFreshBytesRule: what a middleware hands to an external Storage is not memory it reuses. A storage may keep
+// the slice (the bundled memory storage does), so bytes marshalled into a caller-supplied buffer, or a slice that is a
+// field of one of the package's own structs, would be rewritten under the storage when the next entry is stored.
+func storageSetFreshBytesRule(r *Run, pkg, owner string, minSites int) {
+	n := 0
+	r.P.AllFuncs(pkg, func(f *ssa.Function) {
+		for _, c := range callsIn(f, false) {
+			if !c.Common.IsInvoke() || c.Common.Method.Name() != "Set" || !strings.HasSuffix(c.Common.Value.Type().String(), "fiber/v3.Storage") {
+				continue
+			}
+			n++
+			val := c.Common.Args[1]
+			okBuf, why := true, ""
+			// produced by the generated codec: its destination buffer must be nil (fresh allocation)
+			if d := dependsOn(val, func(v ssa.Value) bool {
+				cc, ok := v.(*ssa.Call)
+				return ok && strings.HasSuffix(calleeName(&cc.Call), ").MarshalMsg")
+			}); d != nil {
+				mc := d.(*ssa.Call)
+				buf := mc.Call.Args[len(mc.Call.Args)-1]
+				if !constIsNil(asConst(buf)) {
+					okBuf, why = false, "MarshalMsg appends to a caller-supplied buffer"
+				}
+			}
+			// never memory that the package's own long-lived objects keep between calls
+			if d := dependsOn(val, func(v ssa.Value) bool {
+				fv := fieldOfValue(v)
+				if fv == nil || !strings.HasPrefix(fieldOwner(fv), owner+".") || strings.HasSuffix(fieldOwner(fv), ".item") || strings.HasSuffix(fieldOwner(fv), ".Config") {
+					return false
+				}
+				_, isSlice := fv.Type().Underlying().(*types.Slice)
+				return isSlice
+			}); d != nil {
+				okBuf, why = false, "the value is (a slice of) a field of "+fieldOwner(fieldOfValue(d))
+			}
+			r.check(okBuf, fmt.Sprintf("%s:Storage.Set#%d:fresh-bytes", short(f.String()), n), r.pos(c.Instr), "the stored bytes are freshly allocated or the caller's own value",
+				"the bytes handed to Storage.Set are reused by the middleware ("+why+"): a storage that keeps the slice (the bundled memory storage does) sees entry A's record overwritten when entry B is stored — A is then judged by B's counters / served with B's metadata")
+		}
+	})
+	r.atLeast("Storage.Set call sites", n, minSites)
+}
